@@ -198,6 +198,14 @@ TraceNext ==
             /\ BatchVerdict("jcc", JccBad(ev), LAMBDA k : JccKnown(ev, k)) /\ UNCHANGED st
        [] ev.ev = "loopcx" ->
             /\ BatchVerdict("loopcx", LoopBad(ev), NoKnown) /\ UNCHANGED st
+       \* the real assembler refused a form the generator rendered from syntax.md
+       [] ev.ev = "asmfail" ->
+            /\ Verdict([l |-> l, ev |-> "asmfail", kind |-> "ASMFAIL", dev |-> "", why |-> ev.err])
+            /\ UNCHANGED st
+       \* a REP line still answered REPEAT after CX + 3 invocations
+       [] ev.ev = "nonterminating" ->
+            /\ Verdict([l |-> l, ev |-> "nonterminating", kind |-> "MISMATCH", dev |-> "", why |-> ev.invocations])
+            /\ UNCHANGED st
        [] OTHER -> UNCHANGED st
 
 TraceSpec == TraceInit /\ [][TraceNext]_<<st, l>>
